@@ -616,6 +616,20 @@ impl FdlActiveStation {
         let pending_bytes = phy.poll_pending_received_bytes(now);
         if pending_bytes > self.pending_bytes {
             self.mark_bus_activity(now);
+        } else if pending_bytes > 0
+            && self
+                .last_bus_activity
+                .map(|l| now > l + self.p.slot_time())
+                .unwrap_or(false)
+        {
+            // Nothing more was received for a whole slot time, so whatever is still waiting in the
+            // receive buffer is the remainder of a broken transmission.  It must be discarded, or
+            // it would be taken for the beginning of the next telegram that arrives (and what is
+            // left of that one for the beginning of the one after it, and so on).
+            log::debug!("Discarding {pending_bytes} stale bytes from the receive buffer");
+            phy.receive_data(now, |buffer| (buffer.len(), ()));
+            self.pending_bytes = 0;
+            return;
         }
         // Also track when the receive buffer shrinks (e.g. after the PHY discarded undecodable
         // data).  Otherwise the stale count hides the first bytes of the next telegram.
